@@ -483,11 +483,11 @@ def rule_newline(ctx, rep, rid="R-C15-newline"):
         rep.error(rid, "lexer::tokenize or TokenType attributes not found")
         return
     b = lb[0]
-    LINE = [l for l, (ty, name) in enumerate(b.f["locals"]) if name == "line"]
-    if not LINE:
-        rep.error(rid, "no local `line` in lexer::tokenize")
+    from rules.c05 import lexer_counters
+    LINE = lexer_counters(b).get("line")
+    if LINE is None:
+        rep.error(rid, "cannot find the counter that fills Token.line in lexer::tokenize")
         return
-    LINE = LINE[0]
     dom = b.dominators()
     counted = set()
     unconditional = False
